@@ -91,6 +91,12 @@ def r07_1(ctx, g):
         side1 = 0 if norm(loop.iter).endswith(".start") else 1
         nb = norm(loop.target)
         own = norm(loop.iter).rsplit(".", 1)[0]
+        # `node = self.nodes[n1]; for n in node.start:` — a local for the node object of the outer iteration
+        outer = [o for o in walk_own(wf.node) if isinstance(o, ast.For) and o is not loop and any(x is loop for x in o.body)]
+        if outer and "[" not in own:
+            from ..core import make_resolver as _mr
+
+            own = norm(_mr(outer[0].body)(loop.iter)).rsplit(".", 1)[0]
         for p in enum_paths(loop.body, rule="R07.1", where=wf.where(loop)):
             em = [(e, join_items(e.node)) for e in p.events if e.kind == "stmt" and join_items(e.node) is not None]
             if not em:
@@ -130,7 +136,42 @@ def r07_1(ctx, g):
                     elif s_ == f"{nb}[1] == 1":
                         side2 = 1 if sp else 0
             if o1 is None or o2 is None:
-                raise AnalysisError("R07.1", wf.where(c), "the orientation signs of an L line are not literals on this path")
+                # computed signs: evaluated in every world (side at which the link enters the neighbour) x (is the
+                # neighbour the node itself?); the spelling may depend on the first only
+                from ..core import make_resolver
+                from .. import ordtab as _ot
+
+                res_ = make_resolver(loop.body)
+                n1_txt = n1[4:-1] if n1.startswith("str(") else n1
+                worlds = {}
+                try:
+                    for s2_ in (0, 1):
+                        for self_ in (False, True):
+                            def atom_of(e_, s2_=s2_, self_=self_):
+                                t_ = norm(e_)
+                                if t_ == f"{nb}[1]":
+                                    return "far"
+                                if t_ == f"{nb}[0]":
+                                    return "nbid"
+                                if t_ == n1_txt:
+                                    return "own"
+                                return None
+                            env_ = {"far": s2_, "nbid": 1 if self_ else 2, "own": 1}
+                            ev_ = _ot.Evaluator(env_, atom_of, 1)
+                            consistent = all(bool(ev_.truth(e.node)) == e.pol for e in p.events if e.kind == "test" and (f"{nb}[1]" in norm(e.node) or f"{nb}[0] ==" in norm(e.node)))
+                            if not consistent:
+                                continue
+                            worlds[(s2_, self_)] = (ev_.expr(res_(items[2])), ev_.expr(res_(items[4])))
+                except _ot.Unsupported as ex_:
+                    raise AnalysisError("R07.1", wf.where(c), f"the orientation signs of an L line are not literals on this path and cannot be evaluated ({ex_})")
+                for (s2_, self_), sp_ in sorted(worlds.items()):
+                    if writer.get((side1, s2_), sp_) != sp_:
+                        bad = (c, f"the signs written for a link that enters its neighbour at side {s2_} depend on something else than the two sides ({writer[(side1, s2_)]} vs {sp_}" + (", here: on whether the neighbour is the node itself)" if True else ")"))
+                        break
+                    writer[(side1, s2_)] = sp_
+                if bad:
+                    break
+                continue
             if side2 is None:
                 bad = (c, "the emitter is not selected by a test of the neighbour's side")
                 break
@@ -144,7 +185,8 @@ def r07_1(ctx, g):
                 break
         if bad:
             break
-    ctx.require_count("R07.1", n_emit, 4, wf.where(), "literal L-line emitters of the writer")
+    if bad is None:
+        ctx.require_count("R07.1", n_emit, 4, wf.where(), "literal L-line emitters of the writer")
     if bad is None:
         for (o1, o2), sides in g.edir.items():
             back = writer.get(sides)
@@ -154,7 +196,9 @@ def r07_1(ctx, g):
     ctx.check(bad is None, "R07.1", wf.where(), "writer o reader = identity on link orientations: for each of the four combinations the L line written from the stored side pair spells the orientations that were read", key_of(wf, f"orientation-inverse:{bad[1] if bad else ''}"), reader={f"{k[0]}{k[1]}": v for k, v in g.edir.items()}, writer={str(k): v for k, v in writer.items()}, **({"why": bad[1]} if bad else {}))
     # edge tags looked up with the key the reader stores: (n1, side1, neighbour, side2)
     looks = [s for s in walk_own(wf.node) if isinstance(s, ast.Subscript) and norm(s.value) == "self.edge_tags" and isinstance(s.slice, ast.Tuple)]
-    ok = len(looks) == 2
+    if len(looks) < 2:
+        raise AnalysisError("R07.1", wf.where(), f"cannot find the two look-ups of a link's tags in the writer (found {len(looks)})")
+    ok = True  # every look-up (the writer's branches may repeat the two loops) must use the stored key
     for s in looks:
         e = [norm(x) for x in s.slice.elts]
         loop = next((l for l in walk_own(wf.node) if isinstance(l, ast.For) and any(x is s for x in ast.walk(l)) and norm(l.iter).endswith((".start", ".end"))), None)
@@ -316,6 +360,17 @@ def r07_3(ctx, g):
 
     f = tail_inlined(repo, f, keep=lambda c: not c.name.startswith("_") or c.name.startswith("__"))  # a private bucketing helper is read in place
     sorts = [c for c in walk_own(f.node) if isinstance(c, ast.Call) and isinstance(c.func, ast.Name) and c.func.id == "sorted"]
+    if len(sorts) == 1:
+        # one sort on a key that packs both tags into a number is not the (BO, NO) order
+        key = [k.value for k in sorts[0].keywords if k.arg == "key"]
+        kf = repo.resolve_callable(f, key[0]) if key and not isinstance(key[0], ast.Lambda) else None
+        body = key[0].body if key and isinstance(key[0], ast.Lambda) else None
+        if kf is not None:
+            kr = [r for r in walk_own(kf.node) if isinstance(r, ast.Return) and r.value is not None]
+            body = kr[0].value if len(kr) == 1 else None
+        if isinstance(body, ast.BinOp) and isinstance(body.op, ast.Add) and any(isinstance(x, ast.BinOp) and isinstance(x.op, (ast.Mult, ast.LShift)) and any(isinstance(y, ast.Constant) for y in (x.left, x.right)) for x in (body.left, body.right)) and "tags['BO']" in norm(body) and "tags['NO']" in norm(body):
+            ctx.violated("R07.3", f.where(sorts[0]), f"the nodes are sorted by the single number `{norm(body)[:70]}`: once NO reaches the multiplier the key of (BO, NO) runs into the next BO, so the S lines leave (BO, NO) order for large bubbles", key_of(f, f"packed-key:{norm(body)[:50]}"))
+            return
     ctx.require_count("R07.3", len(sorts), 2, f.where(), "sorted() calls (BO buckets, NO inside a bucket)")
     for c in sorts:
         key = [k.value for k in c.keywords if k.arg == "key"]
